@@ -70,6 +70,15 @@ def _lower_worker(args):
         return None
 
 
+def _drop_pass(tree):
+    """'pass' next to other statements of a block does nothing: removed, so that no analysis has to know it"""
+    for n in ast.walk(tree):
+        for f in ('body', 'orelse', 'finalbody'):
+            b = getattr(n, f, None)
+            if isinstance(b, list) and len(b) > 1 and any(isinstance(x, ast.Pass) for x in b) and any(not isinstance(x, ast.Pass) for x in b):
+                setattr(n, f, [x for x in b if not isinstance(x, ast.Pass)])
+
+
 class _FnTable(dict):
     """module-level functions by name; a name imported from another module of the package resolves to the definition there
     (a helper moved to a sibling module and imported back is still 'the function of that name in this module')"""
@@ -271,6 +280,7 @@ class Program:
             raise
         except Exception as e:
             raise AnalysisError('front end failed on %s: %s: %s' % (relpath, type(e).__name__, e))
+        _drop_pass(tree)
         try:
             from . import alpha
             alpha.record(relpath, alpha.normalise(self.root, relpath, tree))
